@@ -141,6 +141,10 @@ func getSortedNatural[T comparable](cont containers.Container[T]) []T {
 		return any(containers.GetSortedValues[string](x)).([]T)
 	case containers.Container[J]: // not cmp.Ordered: GetSortedValues does not apply, use the Func variant
 		return any(containers.GetSortedValuesFunc[J](x, jCmp)).([]T)
+	case containers.Container[*PS]:
+		return any(containers.GetSortedValuesFunc[*PS](x, psCmp)).([]T)
+	case containers.Container[float64]:
+		return any(containers.GetSortedValues[float64](x)).([]T)
 	}
 	panic("GetSortedValues: unsupported element type")
 }
